@@ -48,6 +48,12 @@ def line_text(toks):
     return "".join("".join(("\t" if (rng is not None and rng.random() < 0.25) else " ") for _ in range(t["g"])) + t["t"] for t in toks)
 
 
+def trail():
+    """invisible blanks at the end of a line (seeded): they move no token"""
+    rng = RNG[0]
+    return rng.choice(["", "", "", " ", "\t", "  \t "]) if rng is not None else ""
+
+
 def render(rec):
     out = []
     f = rec["fault"]
@@ -55,10 +61,12 @@ def render(rec):
         for p in c["pre"]:
             out.append("# a comment" if p == "#" else "")
         faulty = ci == f["c"]
+        # (a header line with blanks after it is no header: trailing blanks go on metavariable lines only)
         out.append(line_text(rec["faultline"]) if faulty and f["m"] == 0 else line_text(c["hdr"]))
-        meta = [line_text(m) for m in c["meta"]]
+        meta = [line_text(m) + trail() for m in c["meta"]]
         if faulty and f["m"] > 0:
-            meta.insert(f["m"] - 1, line_text(rec["faultline"]))
+            # (for "notype" the offending token is the end of the line itself: blanks in front of it would move it)
+            meta.insert(f["m"] - 1, line_text(rec["faultline"]) + ("" if f["k"] == "notype" else trail()))
         out += meta
         out.append("@@")
         out += ["-foo(1)", "+bar(1)"]
